@@ -68,7 +68,7 @@ impl CaseInfo {
 
 pub type CheckResult = Result<CaseInfo, String>;
 
-pub enum Source<C> {
+pub enum Cases<C> {
   /// proptest strategy (built once per worker thread), number of cases (quick, thorough)
   Generated(Box<dyn Fn() -> BoxedStrategy<C> + Send + Sync>, u64, u64),
   /// complete enumeration of a finite space (built per tier)
@@ -77,7 +77,7 @@ pub enum Source<C> {
 
 pub struct Leg<C> {
   pub name: &'static str,
-  pub source: Source<C>,
+  pub source: Cases<C>,
 }
 
 pub trait Prop: Sync {
@@ -236,7 +236,7 @@ pub fn run_prop<P: Prop>(p: &P, ctx: &Ctx) -> i32 {
     }
     let leg_name = leg.name;
     match leg.source {
-      Source::Generated(strategy, q, t) => {
+      Cases::Generated(strategy, q, t) => {
         let total = ctx.tier.pick(q, t);
         let shards = ctx.threads.max(1).min(total.max(1) as usize);
         let per = total.div_ceil(shards as u64);
@@ -340,7 +340,7 @@ pub fn run_prop<P: Prop>(p: &P, ctx: &Ctx) -> i32 {
           }
         });
       }
-      Source::Enumerated(mk) => {
+      Cases::Enumerated(mk) => {
         exhaustive_legs.push(leg_name);
         let iter = Mutex::new(mk(ctx.tier));
         let counter = AtomicU64::new(0);
